@@ -18,6 +18,16 @@ static int parse_bits_list(const char *s, double **ret) {
   free(dup); *ret = p; return n;
 }
 
+static int parse_f32_list(const char *s, float **ret) {
+  int n = 0, cap = 16; float *p = malloc(sizeof(float)*cap); char *dup = strdup(s), *tok, *sv;
+  for (tok = strtok_r(dup, ",", &sv); tok; tok = strtok_r(NULL, ",", &sv)) {
+    uint32_t u = (uint32_t) strtoul(tok, NULL, 16); float f; memcpy(&f, &u, 4);
+    if (n == cap) { cap *= 2; p = realloc(p, sizeof(float)*cap); }
+    p[n++] = f;
+  }
+  free(dup); *ret = p; return n;
+}
+
 static void h_op(void)
 {
   const char *op = h_words[0];
@@ -62,6 +72,13 @@ static void h_op(void)
     double *p; int n = parse_bits_list(h_arg("p"), &p);
     h_out("ok %d", !strcmp(op, "dchoose") ? esl_rnd_DChoose(R, p, n) : esl_rnd_DChooseCDF(R, p, n));
     free(p);
+  } else if (!strcmp(op, "fchoose") || !strcmp(op, "fchoosecdf")) {
+    float *p; int n = parse_f32_list(h_arg("p"), &p);
+    h_out("ok %d", !strcmp(op, "fchoose") ? esl_rnd_FChoose(R, p, n) : esl_rnd_FChooseCDF(R, p, n));
+    free(p);
+  } else if (!strcmp(op, "pokeraw")) {   /* test hook: force the table word the next draw will temper */
+    if (R->type == eslRND_MERSENNE) { if (R->mti >= 624) esl_random_uint32(R); R->mt[R->mti] = (uint32_t) h_argu("w", 0); }
+    h_out("ok");
   } else if (!strcmp(op, "new64")) {
     if (R64) esl_rand64_Destroy(R64);
     R64 = esl_rand64_Create(h_argu("seed", 1));
